@@ -165,3 +165,46 @@ def str_method(I, ctx, s, name):
         return None
     from . import fmtterms
     return fmtterms.str_method(I, ctx, s, name)
+
+
+DECSTR_LT = z3.Function("DECSTR_LT", z3.IntSort(), z3.IntSort(), z3.BoolSort())   # str(a) < str(b) for naturals a, b
+
+
+def _segments(v):
+    """a format string as a list of characters and Dec terms (unpadded decimal numerals of non-negative integers)"""
+    out = []
+    for p in (v.parts if isinstance(v, FmtStr) else [v]):
+        if isinstance(p, str):
+            out.extend(p)
+        elif isinstance(p, Dec) and p.width is None:
+            out.append(p)
+        elif isinstance(p, int) and not isinstance(p, bool) and p >= 0:
+            out.extend(str(p))
+        else:
+            raise Unsupported(f"string order on a format string with part {p!r}")
+    return out
+
+
+def fmt_lt(I, ctx, a, b):
+    """a < b in Python's string order, for strings with the same literal prefix followed by one final decimal numeral each
+    (what sort keys such as f"{weight}_{size}" look like). The order of two numerals is the uninterpreted DECSTR_LT with the
+    facts that are true of it: irreflexive, total on distinct numbers, and the numeric order when both have as many digits."""
+    import z3 as _z3
+    sa, sb = _segments(a), _segments(b)
+    i = 0
+    while i < len(sa) and i < len(sb) and isinstance(sa[i], str) and isinstance(sb[i], str):
+        if sa[i] != sb[i]:
+            return _z3.BoolVal(sa[i] < sb[i])
+        i += 1
+    ra, rb = sa[i:], sb[i:]
+    if not ra or not rb:
+        return _z3.BoolVal(len(ra) < len(rb))
+    if len(ra) == 1 and len(rb) == 1 and isinstance(ra[0], Dec) and isinstance(rb[0], Dec):
+        x, y = ra[0].e, rb[0].e
+        ctx.assumed_ext.add("string order of decimal numerals: irreflexive, total, numeric order for numerals of equal length (other lengths: uninterpreted)")
+        same_len = _z3.Or(*[_z3.And(lo <= x, x < hi, lo <= y, y < hi) for lo, hi in ((0, 10), (10, 100), (100, 1000), (1000, 10000), (10000, 100000))])
+        ctx.assume(_z3.Implies(_z3.And(x >= 0, y >= 0), _z3.And(_z3.Implies(x == y, _z3.Not(DECSTR_LT(x, y))),
+                                                              _z3.Implies(x != y, DECSTR_LT(x, y) != DECSTR_LT(y, x)),
+                                                              _z3.Implies(same_len, DECSTR_LT(x, y) == (x < y)))))
+        return DECSTR_LT(x, y)
+    raise Unsupported(f"string order on {a!r} / {b!r}")
